@@ -49,10 +49,13 @@ def _c12(prop, tier, replay_path):
             kind = json.load(fh).get("kind")
         if kind == "TestVerifNhsim":
             return nhfamily.check_c12_hosts(prop, tier, replay_path)
+        if kind == "TestVerifQqsim":
+            return c12.check_queues(prop, tier, replay_path)
         return c12.check(prop, tier, replay_path)
     a = c12.check(prop, tier, None)
+    q = c12.check_queues(prop, tier, None)
     b = nhfamily.check_c12_hosts(prop, tier, None)
-    return 1 if 1 in (a, b) else max(a, b)
+    return 1 if 1 in (a, q, b) else max(a, q, b)
 
 
 CHECKS["C12"] = _c12
